@@ -30,6 +30,7 @@ var c13Excluded = map[string]string{
 }
 
 func runC13(c *Ctx) {
+	defer ruleStoreInitUnderLock(c, "C13.8")
 	w := c.W
 	for _, r := range []string{"C13.0", "C13.1", "C13.2", "C13.3", "C13.4", "C04.8"} {
 		c.Robust(r)
